@@ -6,7 +6,7 @@ V = os.path.dirname(os.path.dirname(os.path.abspath(__file__)))
 old = json.load(open(os.path.join(V, "floors.json")))
 new = {}
 # rules whose instances are loops / call sites that a refactoring may legitimately replace by library algorithms
-OVERRIDE = {"C03.cover": 0.5, "C02.extent": 0.5, "C11.alias": 0.5, "C02.reads": 0.25, "C01.reads": 0.25, "C03.shift": 0.6, "C03.empty": 0.6, "C01.window": 0.5}
+OVERRIDE = {"C03.cover": 0.5, "C02.extent": 0.5, "C11.alias": 0.5, "C02.reads": 0.25, "C01.reads": 0.25, "C03.shift": 0.6, "C03.empty": 0.6, "C01.window": 0.5, "C06.sel": 0.5}
 for f in sorted(glob.glob(os.path.join(V, "evidence", "C*.json"))):
     e = json.load(open(f))
     for rid, r in e["coverage"].get("rules", {}).items():
